@@ -206,6 +206,9 @@ func (r *seqRun) body() {
 			p := payload(len(accepted), n)
 			keep := append([]byte(nil), p...)
 			got, err := ws.Write(p)
+			for i := range p {
+				p[i] = 0xDB // the caller owns p again once Write has returned (io.Writer: "must not retain p")
+			}
 			if got != n || err != nil {
 				r.fail("", "step %d: Write(%d bytes) returned (%d, %v)", step, n, got, err)
 				break
@@ -421,6 +424,9 @@ func (c *concRun) do(ws *zapcore.BufferedWriteSyncer, clk *clock, thr, idx int, 
 		r.id = *nextID
 		p := bytes.Repeat([]byte{r.id}, op.n)
 		r.n, r.err = ws.Write(p)
+		for i := range p {
+			p[i] = 0xDB // the caller reuses its buffer after Write returned
+		}
 	case "Sync":
 		r.err = ws.Sync()
 	case "Stop":
@@ -980,4 +986,3 @@ func main() {
 		"explanation":                   "all executions are runs of the real code under the controlled scheduler; no abstract model of zap exists, the reference model is the oracle",
 	})
 }
-
